@@ -13,16 +13,16 @@ func bigPow2(n int) string {
 
 // Ctx is the per-function verification context: SMT prelude, sort cache, counters.
 type Ctx struct {
-	P       *Prelude
-	sorts   map[string]string // types.Type string -> sort name
-	structs map[string]*StructInfo
-	fresh   int
-	strLits map[string]string
-	typeTag map[string]int
-	inProg  map[string]bool
-	notes   map[string]bool // abstraction notes (what was dropped/abstracted)
+	P          *Prelude
+	sorts      map[string]string // types.Type string -> sort name
+	structs    map[string]*StructInfo
+	fresh      int
+	strLits    map[string]string
+	typeTag    map[string]int
+	inProg     map[string]bool
+	notes      map[string]bool // abstraction notes (what was dropped/abstracted)
 	errGlobals map[string]bool
-	zarrs   map[string]string
+	zarrs      map[string]string
 }
 
 type StructInfo struct {
@@ -181,12 +181,10 @@ func deref(t types.Type) types.Type {
 
 // Special named types that are given a direct mathematical sort.
 var specialSorts = map[string]string{
-	"cosmossdk.io/math.Int":        "Int",
-	"cosmossdk.io/math.LegacyDec":  "Int", // scaled by 10^18
-	"math/big.Int":                 "Int",
-	"time.Time":                    "Int", // nanoseconds
-	"time.Duration":                "Int",
-	"github.com/cosmos/cosmos-sdk/types.Coins": "Coins",
+	"cosmossdk.io/math.Int":       "Int",
+	"cosmossdk.io/math.LegacyDec": "Int", // scaled by 10^18
+	"math/big.Int":                "Int",
+	"time.Time":                   "Int", // nanoseconds
 }
 
 func (c *Ctx) sortOf(t types.Type) string {
@@ -299,6 +297,9 @@ func (c *Ctx) structOpaque(t types.Type, u *types.Struct) bool {
 		strings.HasPrefix(np, "github.com/cosmos/cosmos-sdk/types.DecCoin"):
 	case strings.HasPrefix(np, "github.com/cometbft/cometbft/abci/types.ValidatorUpdate"):
 		return true
+	case np == "github.com/cometbft/cometbft/abci/types.VoteInfo", np == "github.com/cometbft/cometbft/abci/types.Validator",
+		np == "github.com/cometbft/cometbft/abci/types.Misbehavior":
+		// plain records of the consensus engine: exported fields only
 	case np == "":
 		// anonymous struct
 	default:
